@@ -6,7 +6,7 @@ rows = []
 for p in sorted(glob.glob(os.path.join(V, 'seeded', '*', 'meta.json'))):
   m = json.load(open(p))
   rows.append('| %s | %s | %s | %s | %s |' % (m['name'], m['property'], 'yes' if m.get('confirmed') else 'NO',
-              ', '.join(m.get('caught_by') or []) or ('n/a - no daemon execution differs' if m.get('equivalent_in_daemon') else '**none**'), (m.get('strengthened') or (m.get('first_counterexample') or '')[:140]).replace('|', '/')))
+              ', '.join(m.get('caught_by') or []) or ('n/a - no daemon execution differs' if m.get('equivalent_in_daemon') else ('n/a - the statement does not decide it' if m.get('outside_statement') else '**none**')), (m.get('strengthened') or (m.get('first_counterexample') or '')[:140]).replace('|', '/')))
 open(os.path.join(V, 'seeded', 'RESULTS.md'), 'w').write(
   '# Independently seeded changes\n\nEach change was written by a fresh sub-agent that saw only the property text and a scratch worktree. '
   '"confirmed" = the repository tests still pass with it and its demo fails with / passes without it (tools/seedcheck.py).\n\n'
